@@ -130,6 +130,26 @@ pub const GARBAGE: [&str; 9] = [
   "eyJhIjoxfQ",                   // {"a":1}
 ];
 
+/// Number of non-disclosure strings `garbage` knows.
+pub const GARBAGE_LEN: usize = 17;
+
+/// A string that is not a disclosure: the short ones of `GARBAGE`, then long runs of two-byte characters at four
+/// alignments (what an error message that quotes and shortens the input has to cope with), raw and wrapped in a
+/// disclosure-shaped array.
+pub fn garbage(g: u8) -> String {
+  let g = g as usize % GARBAGE_LEN;
+  if g < GARBAGE.len() {
+    return GARBAGE[g].to_string();
+  }
+  let k = (g - GARBAGE.len()) % 4;
+  let run = format!("{}{}", "a".repeat(k), "é".repeat(220));
+  if g - GARBAGE.len() < 4 {
+    run
+  } else {
+    crate::util::b64url(serde_json::json!(["c2FsdA", "name", run]).to_string().as_bytes())
+  }
+}
+
 #[derive(Debug, Clone, PartialEq, Serialize, Deserialize)]
 pub enum Entry {
   /// `validate_credential` with this issuer document
@@ -573,7 +593,7 @@ fn present_disclosures(discs: &[Disc], fault: DiscFault, salt_seed: u32, obs: &m
     }
     DiscFault::Garbage(g) => {
       obs.label("disclosure-garbage");
-      list.push(Presented { text: GARBAGE[g as usize % GARBAGE.len()].to_string(), genuine: None });
+      list.push(Presented { text: garbage(g), genuine: None });
     }
     _ => obs.label("disclosure-fault-degenerate"),
   }
@@ -1308,7 +1328,7 @@ fn cred_alternatives() -> Vec<Alt<CredCase>> {
   ] {
     a.push(ca("disclosures", move |c| c.fault = f));
   }
-  for g in 0..GARBAGE.len() as u8 {
+  for g in 0..GARBAGE_LEN as u8 {
     a.push(ca("disclosures", move |c| c.fault = DiscFault::Garbage(g)));
   }
   for n in 0..6 {
@@ -1709,7 +1729,7 @@ fn fault_strategy() -> impl Strategy<Value = DiscFault> {
     1 => any::<u16>().prop_map(DiscFault::ForgeName),
     1 => Just(DiscFault::Unknown),
     1 => any::<u16>().prop_map(DiscFault::Padded),
-    1 => (0u8..GARBAGE.len() as u8).prop_map(DiscFault::Garbage),
+    1 => (0u8..GARBAGE_LEN as u8).prop_map(DiscFault::Garbage),
   ]
 }
 
